@@ -1,8 +1,8 @@
 """The element-type dimension of an input: the same matrix as int64, int32, uint8, bool (0/1 only) arrays.
 
 Rule used by the engine-B checks: the float64 result is the one compared with the oracle; for every other
-element type the routine must return the same values (tolerance 1e-9; 1e-6 for bool, where LAPACK may run in
-single precision).  Integer types must not raise.  A boolean matrix may be rejected with a TypeError (numpy
+element type the routine must return the same values (tolerance 1e-9; 1e-5 for bool and uint8, which numpy's
+linear algebra promotes to single precision).  Integer types must not raise.  A boolean matrix may be rejected with a TypeError (numpy
 defines no subtraction / sign on booleans, and several routines are arithmetic on their argument); any other
 exception, or a returned value that differs, is a violation.
 """
@@ -72,7 +72,7 @@ def check(t, fname, f, A, case, extra_args=()):
                 continue
             t.viol(fname, 'element_type:raises', c, observed=out, tags={'element_type': tag})
             continue
-        if not same(out, base, 1e-6 if tag == 'bool' else 1e-9):
+        if not same(out, base, 1e-5 if tag in ('bool', 'uint8') else 1e-9):
             t.viol(fname, 'element_type:same_values', c, observed=out, expected=base, tags={'element_type': tag})
         if not np.array_equal(V, before):
             t.viol(fname, 'element_type:argument_unchanged', c, observed=V, expected=before, tags={'element_type': tag})
